@@ -53,7 +53,7 @@ impl EngineS {
     }
     #[inline]
     pub fn increment_counter(&mut self, inc: u32) {
-        self.t[0] += inc;
+        self.t[0] = self.t[0].wrapping_add(inc);
         self.t[1] += if self.t[0] < inc { 1 } else { 0 };
     }
 
@@ -107,7 +107,7 @@ impl EngineB {
 
     #[inline]
     pub fn increment_counter(&mut self, inc: u64) {
-        self.t[0] += inc;
+        self.t[0] = self.t[0].wrapping_add(inc);
         self.t[1] += if self.t[0] < inc { 1 } else { 0 };
     }
 
